@@ -17,20 +17,63 @@ ADD = 'dasp_slice::add_in_place'
 RB = ('dasp_ring_buffer::',)
 
 
+FILL = 'core::slice::<impl [T]>::fill'
+
+
 def key_calls(p, d, names):
+    """the copy / add calls of a path, with denoted arguments.  `slice.fill(0.0)` on a buffer's samples is the other
+    spelling of `copy_from_slice(&SILENT)` and is reported as that copy from the silent buffer"""
     out = []
     for k, e in call_events(p):
         if rp(e) in names:
             out.append((k, rp(e), [d.slice_of(a) if a[0] == 'ref' else d.of(a) for a in e['args']]))
+        elif rp(e) == FILL and CFS in names and e['args'][1][0] == 'float' and fval(e['args'][1]) == 0.0:
+            out.append((k, CFS, [d.slice_of(e['args'][0]), ('silent',)]))
     return out
 
 
+def fills_all_silent(p, d, sl):
+    """event indices of `sl.fill(Buffer::SILENT)`: every buffer of the slice silenced in one call"""
+    return [k for k, e in call_events(p) if rp(e) == FILL and d.slice_of(e['args'][0]) == sl
+            and e['args'][1][0] == 'assoc' and e['args'][1][1] == 'dasp_graph::buffer::Buffer::SILENT']
+
+
 def is_silent(x):
-    return x[0] == 'samples' and x[1][0] == 'promoted' and 'Buffer::silence' in x[1][1]
+    return x == ('silent',) or (x[0] == 'samples' and x[1][0] == 'promoted' and 'Buffer::silence' in x[1][1])
 
 
 def is_elem(x, of):
     return x[0] == 'elem' and x[1] == of
+
+
+def check_buffer_silence(run, cx, cfg):
+    """Buffer::silence writes 0.0 to every sample of the buffer: copy_from_slice(&SILENT) or fill(0.0) over the whole array"""
+    fn = 'dasp_graph::buffer::Buffer::silence'
+    body = cx.body(fn)
+    if body is None:
+        run.fail('buffer.silence', fn, cfg, 'function not found')
+        return
+    ps = normal_paths(cx.paths(fn))
+    ok = False
+    if len(ps) == 1 and ps[0]['end'] == 'return':
+        d = Den(ps[0])
+        calls = key_calls(ps[0], d, (CFS,))
+        eff = [e for k, e in call_events(ps[0]) if rp(e) in (CFS, FILL)]
+        ok = len(calls) == 1 and len(eff) == 1 and calls[0][2][0] == ('samples', ('param', 1)) and is_silent(calls[0][2][1])
+    # ... and the constant every silencing refers to is 64 zeros
+    cb = cx.facts.const_bodies.get('dasp_graph::buffer::Buffer::SILENT')
+    okc = False
+    if cb is not None and len(cb['blocks']) == 1 and cb['blocks'][0]['t']['k'] == 'return':
+        reps = [st for st in cb['blocks'][0]['s'] if st[0] == '=' and st[2][0] == 'repeat']
+        aggs = [st for st in cb['blocks'][0]['s'] if st[0] == '=' and st[2][0] == 'agg' and st[2][1][0] == 'adt' and st[2][1][1] == 'dasp_graph::buffer::Buffer']
+        if len(reps) == 1 and len(aggs) == 1 and len(cb['blocks'][0]['s']) == 2:
+            c = reps[0][2][1]
+            okc = c[0] == 'c' and c[1].get('ty') == 'f32' and str(c[1].get('bits')) == '0' and str(reps[0][2][2]) == '64' \
+                and aggs[0][1] == [0, []] and aggs[0][2][2] == [['mv', reps[0][1]]]
+    run.check(okc, 'buffer.silent-const', 'dasp_graph::buffer::Buffer::SILENT', cfg, 'Buffer::SILENT must be Buffer { data: [0.0; 64] }',
+              where=where(cb) if cb else None)
+    run.check(ok, 'buffer.silence', fn, cfg, 'must set every sample of the buffer to 0.0 (copy_from_slice(&SILENT) or fill(0.0) over the whole sample array): [%s]' % '; '.join(describe_path(p)[:200] for p in ps),
+              where=where(body))
 
 
 def check_sum(run, cx, cfg):
@@ -68,14 +111,21 @@ def check_sum(run, cx, cfg):
                     bad = 'adds inside the silencing loop'
                 # the add loop over outputs is only entered after the silencing loop finished
                 enters = [e['header'] for e in p['events'] if e['kind'] == 'loop-enter']
-                if len(enters) < 3:
+                fa = fills_all_silent(p, d, OUT)
+                if len(enters) < 3 and not (len(enters) == 2 and fa and fa[0] < k):
                     bad = 'expected silence loop, output loop, input loop'
+                if fa:
+                    kinds.add('silence')
                 kinds.add('add')
         if not bad and p['end'] == 'return':
             # must pass through: whatever the inputs, a call returns only after the silencing loop and the channel loop over
             # the outputs have both run to their end (with no input the sum is silence, not the previous block)
-            dens = [d.iter_of(l['iter']) for l in iterator_loops(p) if l['frame'] == 0]
-            if ('seq', OUT) not in dens or ('enumerate', ('seq', OUT)) not in dens or dens.index(('seq', OUT)) > dens.index(('enumerate', ('seq', OUT))):
+            dens = [d.iter_of(l['iter']) for l in iterator_loops(p)]      # (whichever frame: the loops may live in private helpers)
+            fa = fills_all_silent(p, d, OUT)
+            chan = [l['enter'] for l in iterator_loops(p) if d.iter_of(l['iter']) == ('enumerate', ('seq', OUT))]
+            if fa and chan and fa[0] < chan[0]:
+                pass        # output.fill(Buffer::SILENT) before the channel loop
+            elif ('seq', OUT) not in dens or ('enumerate', ('seq', OUT)) not in dens or dens.index(('seq', OUT)) > dens.index(('enumerate', ('seq', OUT))):
                 bad = 'returns without having run the silencing loop and then the channel loop over all outputs: [%s]' % describe_path(p)[:300]
         if bad:
             break
@@ -344,7 +394,7 @@ def check_graph_node(run, cx, cfg):
             kinds.add('process')
         if not bad and p['end'] == 'return':
             # must pass through: the input loop, the inner processor, the output loop -- in this order, on every return
-            loops = [(l['enter'], d.iter_of(l['iter'])) for l in iterator_loops(p) if l['frame'] == 0]
+            loops = [(l['enter'], d.iter_of(l['iter'])) for l in iterator_loops(p)]
             ins_loops = [k for k, den in loops if den[0] == 'zip' and den[1] == ('seq', INS)]
             out_loops = [k for k, den in loops if den[0] == 'zip' and den[1] == ('seq', OUT)]
             if not procs or not ins_loops or not out_loops or not (ins_loops[0] < [k for k, e in enumerate(p['events']) if e is procs[0][1]][0] < out_loops[0]):
@@ -406,6 +456,7 @@ def run(run, tier, loadcfg):
                        'with C06 the delay is the ring length; with C09 a nested graph behaves like the graph (paper)']
     cfg = 'std-debug'
     cx = Ctx(loadcfg(cfg))
+    check_buffer_silence(run, cx, cfg)
     check_sum(run, cx, cfg)
     check_sum_buffers(run, cx, cfg)
     check_pass(run, cx, cfg)
